@@ -35,8 +35,48 @@ def _cat(a_alts, b_alts):
 HOLE = [(None,)]
 
 
+def _module_fns(fn_node):
+    """{name: FunctionDef} of the functions visible from fn_node: its own nested defs and the module's top-level defs"""
+    out = {}
+    top = fn_node
+    while getattr(top, "_parent", None) is not None:
+        top = top._parent
+    for st in getattr(top, "body", []):
+        if isinstance(st, (ast.FunctionDef, ast.AsyncFunctionDef)):
+            out[st.name] = st
+    for st in ast.walk(fn_node):
+        if isinstance(st, (ast.FunctionDef, ast.AsyncFunctionDef)) and st is not fn_node:
+            out[st.name] = st
+    return out
+
+
+def _returns_of(fdef):
+    out = []
+    stack = list(fdef.body)
+    while stack:
+        n = stack.pop()
+        if isinstance(n, (ast.FunctionDef, ast.AsyncFunctionDef, ast.Lambda, ast.ClassDef)):
+            continue
+        if isinstance(n, ast.Return):
+            out.append(n.value)
+        stack.extend(ast.iter_child_nodes(n))
+    return out
+
+
+class _In(object):
+    """an expression to be evaluated in another function's scope"""
+    def __init__(self, expr, fn_node):
+        self.expr, self.fn_node = expr, fn_node
+
+
+def _callee(fn_node, call):
+    if isinstance(call, ast.Call) and isinstance(call.func, ast.Name):
+        return _module_fns(fn_node).get(call.func.id)
+    return None
+
+
 def _defs_of(fn_node, name):
-    """value expressions bound to `name` anywhere in fn_node (None = opaque binding)"""
+    """value expressions bound to `name` anywhere in fn_node (None = opaque binding; _In = an expression of a callee)"""
     out = []
     for st in ast.walk(fn_node):
         if isinstance(st, ast.Assign):
@@ -53,6 +93,11 @@ def _defs_of(fn_node, name):
                     for v in vals:
                         if isinstance(v, (ast.Tuple, ast.List)) and len(v.elts) == len(t.elts):
                             out.append(v.elts[idx])
+                            continue
+                        cal = _callee(fn_node, v)
+                        rets = _returns_of(cal) if cal is not None else []
+                        if rets and all(isinstance(r, (ast.Tuple, ast.List)) and len(r.elts) == len(t.elts) for r in rets):
+                            out.extend(_In(r.elts[idx], cal) for r in rets)
                         else:
                             out.append(None)
         elif isinstance(st, (ast.For, ast.comprehension)) and name in {n.id for n in ast.walk(st.target) if isinstance(n, ast.Name)}:
@@ -121,13 +166,26 @@ def shapes(e, fn_node=None, depth=0, seen=None):
             return HOLE
         out = []
         for d in defs:
-            out += HOLE if d is None else shapes(d, fn_node, depth + 1, seen | {e.id})
+            if isinstance(d, _In):
+                out += shapes(d.expr, d.fn_node, depth + 1, frozenset())
+            else:
+                out += HOLE if d is None else shapes(d, fn_node, depth + 1, seen | {e.id})
         # dedupe
         uniq = []
         for a in out:
             if a not in uniq:
                 uniq.append(a)
         return uniq[:MAX_ALT]
+    if isinstance(e, ast.Call) and fn_node is not None:
+        # a call of a function of the same module: the union of the shapes of what it returns (its parameters are holes)
+        cal = _callee(fn_node, e)
+        if cal is not None and cal is not fn_node:
+            rets = _returns_of(cal)
+            if rets:
+                out = []
+                for r in rets:
+                    out += shapes(r, cal, depth + 1, frozenset())
+                return out[:MAX_ALT]
     return HOLE
 
 
